@@ -22,7 +22,7 @@ struct ForwardWorld {
 struct C20Monitor : Monitor {
 	World *w; ForwardWorld *fw;
 	struct Exp { uint16_t id; std::string name; uint16_t type; std::string asker; Addr asker_addr; bool done = false; };
-	struct Ring { uint16_t id; std::string asker; };
+	struct Ring { uint16_t id; std::string asker; bool answered = false; bool ambig = false; };
 	std::deque<Ring> ring;                          // the 16 most recently forwarded queries
 	std::vector<Exp> step_expect;
 	struct Rep { Bytes data; uint16_t id; int relayed = 0; };
@@ -45,7 +45,7 @@ struct C20Monitor : Monitor {
 			if (!e.empty() || m.qd.size() != 1) { w->S.violate("C20", "forward.malformed", "forwarded query is not a well-formed single-question message: " + e); return; }
 			for (auto &x : step_expect) if (!x.done && x.id == m.id && x.name == m.qd[0].name.dotted() && x.type == m.qd[0].type) {
 				x.done = true;
-				ring.push_back({m.id, x.asker}); if (ring.size() > 16) ring.pop_front();
+				ring.push_back({m.id, x.asker, false}); if (ring.size() > 16) ring.pop_front();
 				return;
 			}
 			char b[300]; snprintf(b, sizeof b, "forwarded query id=%u name='%s' type=%u matches no non-tunnel query received in this step", m.id, m.qd[0].name.dotted().substr(0, 120).c_str(), m.qd[0].type);
@@ -58,10 +58,21 @@ struct C20Monitor : Monitor {
 		uint16_t id = d.data.size() >= 2 ? (uint16_t)((d.data[0] << 8) | d.data[1]) : 0;
 		w->probes["c20.relayed"]++;
 		std::vector<std::string> cand;
-		for (auto &r : ring) if (r.id == id) cand.push_back(r.asker);
+		std::vector<Ring *> open;          // remembered queries with this id that have not had a reply yet
+		for (auto &r : ring) if (r.id == id) { cand.push_back(r.asker); if (!r.answered) open.push_back(&r); }
 		char b[300];
 		if (cand.empty()) { snprintf(b, sizeof b, "local reply id=%u was sent to %s although none of the 16 most recent forwarded queries has that id", id, d.dst.str().c_str()); w->S.violate("C20", "relay.unknown_id", b); return; }
 		if (std::find(cand.begin(), cand.end(), d.dst.str()) == cand.end()) { snprintf(b, sizeof b, "local reply id=%u was sent to %s; it was asked by %s", id, d.dst.str().c_str(), cand[0].c_str()); w->S.violate("C20", "relay.wrong_asker", b); return; }
+		// id reuse: when exactly one remembered query with this id is still waiting for its reply, the reply is that one's -
+		// not an earlier asker's whose query has been answered already
+		if (open.size() == 1 && cand.size() > 1 && open[0]->asker != d.dst.str()) {
+			snprintf(b, sizeof b, "local reply id=%u was sent to %s, whose query with that id had been answered already; the one still waiting is %s's", id, d.dst.str().c_str(), open[0]->asker.c_str());
+			w->S.violate("C20", "relay.stale_asker", b);
+			return;
+		}
+		if (cand.size() > 1) w->probes["c20.id_reuse_relays"]++;
+		if (open.size() > 1) for (auto &r : ring) if (r.id == id) r.ambig = true;     // two waiting queries with one id: which of them a reply belongs to (and which one is left) is not decidable by id
+		for (auto &r : ring) if (r.id == id && !r.answered && r.asker == d.dst.str()) { r.answered = true; break; }
 		for (auto &r : step_replies) if (r.data == d.data && !r.relayed) { r.relayed++; return; }
 		for (auto &r : step_replies) if (r.data == d.data) { r.relayed++; return; }
 		snprintf(b, sizeof b, "local reply id=%u relayed to %s in a step that did not receive it", id, d.dst.str().c_str()); w->S.violate("C20", "relay.spurious", b);
@@ -97,7 +108,11 @@ struct C20Monitor : Monitor {
 		for (auto &r : step_replies) {
 			std::vector<std::string> cand;
 			for (auto &e : ring) if (e.id == r.id) cand.push_back(e.asker);
-			if (cand.size() == 1) {
+			bool open_left = false, amb = false;
+			for (auto &e : ring) if (e.id == r.id) { if (!e.answered) open_left = true; if (e.ambig) amb = true; }
+			if (amb) { w->probes["c20.reply_id_ambiguous"]++; continue; }
+			if (cand.size() == 1 && !open_left && r.relayed == 0) w->probes["c20.duplicate_reply_dropped"]++;     // the query has had its reply; a second copy need not be passed on
+			else if (cand.size() == 1) {
 				if (r.relayed != 1) { snprintf(b, sizeof b, "local reply id=%u (asked by %s, id unique among the last 16) was relayed %d times", r.id, cand[0].c_str(), r.relayed); w->S.violate("C20", r.relayed ? "relay.repeated" : "relay.missing", b); }
 				else w->probes["c20.relay_ok"]++;
 			} else if (cand.size() > 1) w->probes["c20.reply_id_ambiguous"]++;
